@@ -65,12 +65,14 @@ func (w *World) GenVC(fn *ssa.Function, ct *Contract) (res *FuncVC) {
 		args = append(args, v)
 		if defaultNonNil(p.Type()) && !(ct != nil && ct.Nilable[p.Name()]) {
 			e.assumeGlobal(e.C.Not(e.C.Eq(v.Terms[0], e.C.IntLit(0))))
-			e.note("default precondition: pointer, interface and function parameters are non-nil unless declared nilable")
-		}
-		for i, t := range v.Terms {
-			res.Params = append(res.Params, NamedTerm{Name: fmt.Sprintf("%s#%d", p.Name(), i), T: t})
+			if isInterface(p.Type()) {
+				// and interface parameters do not hold typed nil pointers
+				e.assumeGlobal(e.C.Not(e.C.Eq(v.Terms[1], e.C.IntLit(0))))
+			}
+			e.note("default precondition: pointer, interface and function parameters are non-nil (interfaces do not hold typed nil pointers) unless declared nilable")
 		}
 	}
+	res.Params = e.inputTerms(st.clone(), fn, args)
 	var binds []Val
 	for _, fv := range fn.FreeVars {
 		v := e.fresh("free."+fv.Name(), fv.Type())
@@ -84,6 +86,11 @@ func (w *World) GenVC(fn *ssa.Function, ct *Contract) (res *FuncVC) {
 	pre := &frame{engine: e, fn: fn, vals: map[ssa.Value]Val{}, params: args, entry: st, ct: ct}
 	for i, p := range fn.Params {
 		pre.vals[p] = args[i]
+	}
+	for _, cl := range w.invsFor(fn) {
+		ctx := &evalCtx{e: e, f: pre, st: st, old: st, bound: map[string]EV{"self": {V: args[0]}}, pkg: typesPkgOf(fn)}
+		e.assume(st, ctx.boolean(cl.Expr, cl.Text))
+		e.note("type invariant assumed on the receiver: " + cl.Text)
 	}
 	if ct != nil {
 		ctx := &evalCtx{e: e, f: pre, st: st, old: st, bound: map[string]EV{}, pkg: typesPkgOf(fn)}
@@ -103,7 +110,7 @@ func (w *World) GenVC(fn *ssa.Function, ct *Contract) (res *FuncVC) {
 		for i, cl := range ct.Ensures {
 			t := ctx.boolean(cl.Expr, cl.Text)
 			o := e.oblige(exit, "post", clauseLabel(cl, i), t, fmt.Sprintf("%s:%d", strings.TrimPrefix(ct.File, "/repo/"), cl.Line), "ensures "+cl.Text)
-			o.Inputs = res.Params
+			o.Inputs = append(append([]NamedTerm{}, res.Params...), resultTerms(rets)...)
 		}
 		for i, cl := range ct.Cases {
 			t := ctx.boolean(cl.Expr, cl.Text)
@@ -117,6 +124,19 @@ func (w *World) GenVC(fn *ssa.Function, ct *Contract) (res *FuncVC) {
 		}
 	}
 	return res
+}
+
+func resultTerms(rets []Val) []NamedTerm {
+	var out []NamedTerm
+	for i, r := range rets {
+		switch {
+		case isInterface(r.Typ):
+			out = append(out, NamedTerm{fmt.Sprintf("result%d#tag", i), r.Terms[0]})
+		case len(r.Terms) == 1:
+			out = append(out, NamedTerm{fmt.Sprintf("result%d", i), r.Terms[0]})
+		}
+	}
+	return out
 }
 
 func (e *Engine) execFuncTop(fn *ssa.Function, args, binds []Val, st *State, ct *Contract) ([]Val, *State, *frame) {
@@ -284,14 +304,36 @@ func defaultNonNil(t types.Type) bool {
 	return false
 }
 
+// invsFor returns the type invariants applying to fn's receiver.
+func (w *World) invsFor(fn *ssa.Function) []*Clause {
+	if fn.Signature.Recv() == nil || len(fn.Params) == 0 {
+		return nil
+	}
+	k := FuncKey(fn)
+	if i := strings.LastIndex(k, ")."); i >= 0 {
+		return w.TypeInvs[k[:i+1]]
+	}
+	return nil
+}
+
 // checkDefaultPre emits the call-site half of the default non-nil precondition.
 func (e *Engine) checkDefaultPre(st *State, fn *ssa.Function, ct *Contract, args []Val, key, pos string) {
 	for i, p := range fn.Params {
 		if i >= len(args) || !defaultNonNil(p.Type()) || (ct != nil && ct.Nilable[p.Name()]) {
 			continue
 		}
-		e.oblige(st, "pre", fmt.Sprintf("%s.nonnil.%s@%s", shortKey(key), p.Name(), callOrd(e, key+"#"+p.Name())), e.C.Not(e.C.Eq(args[i].Terms[0], e.C.IntLit(0))), pos,
+		cond := e.C.Not(e.C.Eq(args[i].Terms[0], e.C.IntLit(0)))
+		if isInterface(p.Type()) {
+			cond = e.C.And(cond, e.C.Not(e.C.Eq(args[i].Terms[1], e.C.IntLit(0))))
+		}
+		e.oblige(st, "pre", fmt.Sprintf("%s.nonnil.%s@%s", shortKey(key), p.Name(), callOrd(e, key+"#"+p.Name())), cond, pos,
 			"argument "+p.Name()+" of "+key+" must be non-nil (default precondition)")
+	}
+	for i, cl := range e.W.invsFor(fn) {
+		pf := &frame{engine: e, fn: fn, vals: map[ssa.Value]Val{}, params: args, entry: st}
+		ctx := &evalCtx{e: e, f: pf, st: st, old: st, bound: map[string]EV{"self": {V: args[0]}}, pkg: typesPkgOf(fn)}
+		e.oblige(st, "pre", fmt.Sprintf("%s.inv.%s@%s", shortKey(key), clauseLabel(cl, i), callOrd(e, key+"#inv")), ctx.boolean(cl.Expr, cl.Text), pos,
+			"type invariant of the receiver of "+key+": "+cl.Text)
 	}
 }
 
